@@ -6,6 +6,7 @@ package main
 
 import (
 	"fmt"
+	"go/constant"
 	"go/token"
 	"go/types"
 	"sort"
@@ -100,6 +101,325 @@ func (p *Program) pfSuccess(fs []Fact, call *ssa.Call) bool {
 		return false
 	}
 	return p.emptinessFromFacts(fs, v) == yesTri
+}
+
+// pfAssume: values assumed nil / empty in addition to what the facts say (results of a helper
+// whose caller established that outcome).
+type pfAssume struct {
+	Nil, Empty []ssa.Value
+}
+
+func (p *Program) pfAssumed(list []ssa.Value, v ssa.Value) bool {
+	for _, a := range list {
+		if a != nil && v != nil && (stripConv(a) == stripConv(v) || p.sameValue(a, v)) {
+			return true
+		}
+	}
+	return false
+}
+
+// pfSuccessAssuming: pfSuccess, where either half may also follow from an assumed value: the call's
+// error is one of as.Nil, its violation list one of as.Empty.
+func (p *Program) pfSuccessAssuming(fs []Fact, call *ssa.Call, as pfAssume) bool {
+	v := pfExtract(call, 0)
+	if v == nil {
+		return false
+	}
+	if !p.errOfCallIsNil(fs, call) && !p.pfAssumed(as.Nil, pfExtract(call, 1)) {
+		return false
+	}
+	return p.emptinessFromFacts(fs, v) == yesTri || p.pfAssumed(as.Empty, v)
+}
+
+// pfContradictory: the facts cannot all hold, so the block (edge) they belong to never executes:
+// pfDeadByFacts, or one and the same test known both true and false. The second form is what tail
+// duplication leaves when the statements behind a merged helper call start with the test the helper
+// already made (`if err != nil { return err }` copied behind the helper's own `if err != nil`
+// return): the copy for the error return keeps a fall-through arm "err != nil ∧ !(err != nil)".
+// Only syntactically identical tests count — the same instruction, or the same operator over the
+// very same SSA operands (an SSA value has one value per activation of its block, and a fact about
+// a value of an earlier loop iteration does not survive the loop head).
+func pfContradictory(fs []Fact) bool {
+	if pfDeadByFacts(fs) {
+		return true
+	}
+	for i, f := range fs {
+		if f.Imported {
+			continue
+		}
+		for _, g := range fs[i+1:] {
+			if g.Imported || f.Pol == g.Pol {
+				continue
+			}
+			if pfSameTest(f.Cond, g.Cond) {
+				return true
+			}
+		}
+	}
+	return false
+}
+
+func pfSameTest(a, b ssa.Value) bool {
+	if a == b {
+		return true
+	}
+	x, ok1 := a.(*ssa.BinOp)
+	y, ok2 := b.(*ssa.BinOp)
+	if !ok1 || !ok2 || x.Op != y.Op {
+		return false
+	}
+	same := func(u, v ssa.Value) bool {
+		u, v = stripConv(u), stripConv(v)
+		if u == v {
+			return true
+		}
+		cu, uc := u.(*ssa.Const)
+		cv, vc := v.(*ssa.Const)
+		if !uc || !vc || !types.Identical(cu.Type(), cv.Type()) {
+			return false
+		}
+		if cu.Value == nil || cv.Value == nil {
+			return cu.Value == nil && cv.Value == nil
+		}
+		return constant.Compare(cu.Value, token.EQL, cv.Value)
+	}
+	return same(x.X, y.X) && same(x.Y, y.Y)
+}
+
+// ---------------------------------------------------------------------------------------------
+// A preflight performed in a callee whose result the caller tests
+//
+//	if err := r.checkPhasePreflight(ctx, owner, phase, objs); err != nil { return err }
+//
+// The guard "the callee reported no error / no violations / true" implies that the preflight
+// succeeded exactly when every return of the callee that is compatible with that outcome is itself
+// behind a successful preflight. The normaliser merges new unexported helpers into their callers, so
+// this is the view for helpers it leaves in place (defer, exported, several callers with different
+// continuations, …).
+
+// pfOutcome: what the facts say about result Idx of a call: 'n' nil, 'e' empty, 't' / 'f' boolean.
+type pfOutcome struct {
+	Idx  int
+	Kind byte
+}
+
+func pfIsBool(t types.Type) bool {
+	b, ok := t.Underlying().(*types.Basic)
+	return ok && b.Info()&types.IsBoolean != 0
+}
+
+func (p *Program) pfKnownOutcome(fs []Fact, k *ssa.Call) []pfOutcome {
+	res := k.Common().Signature().Results()
+	var out []pfOutcome
+	lastErr := -1
+	for i := 0; i < res.Len(); i++ {
+		if pfIsErrorType(res.At(i).Type()) {
+			lastErr = i
+		}
+	}
+	for i := 0; i < res.Len(); i++ {
+		var v ssa.Value = k
+		if res.Len() > 1 {
+			if v = pfExtract(k, i); v == nil {
+				continue
+			}
+		}
+		t := res.At(i).Type()
+		switch {
+		case pfIsErrorType(t):
+			if p.nilnessFromFacts(fs, v) == yesTri || (i == lastErr && p.errOfCallIsNil(fs, k)) {
+				out = append(out, pfOutcome{i, 'n'})
+			}
+		case pfIsBool(t):
+			switch p.boolFromFacts(fs, v) {
+			case yesTri:
+				out = append(out, pfOutcome{i, 't'})
+			case noTri:
+				out = append(out, pfOutcome{i, 'f'})
+			}
+		default:
+			if _, isSlice := t.Underlying().(*types.Slice); isSlice && p.emptinessFromFacts(fs, v) == yesTri {
+				out = append(out, pfOutcome{i, 'e'})
+			}
+		}
+	}
+	return out
+}
+
+// pfReturnCompatible: can the return case produce the outcome? When it can, facts / assumptions that
+// the outcome adds to the return's own facts are returned (a returned comparison known true, a
+// returned error known nil, a returned list known empty).
+func (p *Program) pfReturnCompatible(rc ReturnCase, outs []pfOutcome) (bool, []Fact, pfAssume) {
+	var add []Fact
+	var as pfAssume
+	for _, o := range outs {
+		if o.Idx >= len(rc.Results) {
+			return false, nil, as
+		}
+		r := rc.Results[o.Idx]
+		switch o.Kind {
+		case 'n':
+			if !p.pfErrMayBeNil(rc.Facts, r) {
+				return false, nil, as
+			}
+			if r != nil {
+				as.Nil = append(as.Nil, r)
+			}
+		case 'e':
+			if r == nil {
+				continue
+			}
+			if p.emptinessFromFacts(rc.Facts, r) == noTri || pfNonEmptySliceLit(r) || pfAddsViolation(r) {
+				return false, nil, as
+			}
+			as.Empty = append(as.Empty, r)
+		case 't', 'f':
+			if r == nil {
+				continue
+			}
+			want := o.Kind == 't'
+			if cb, isC := constBool(r); isC {
+				if cb != want {
+					return false, nil, as
+				}
+				continue
+			}
+			switch p.boolFromFacts(rc.Facts, r) {
+			case yesTri:
+				if !want {
+					return false, nil, as
+				}
+			case noTri:
+				if want {
+					return false, nil, as
+				}
+			default:
+				add = append(add, p.mkFact(r, want))
+			}
+		}
+	}
+	return true, add, as
+}
+
+// pfMayRecover: a deferred call of fn may swallow a panic, in which case fn returns the zero values
+// of its (unnamed) results without having run to one of its return statements.
+func (p *Program) pfMayRecover(fn *ssa.Function) bool {
+	isRecover := func(c Call) bool {
+		b, ok := c.Common.Value.(*ssa.Builtin)
+		return ok && b.Name() == "recover"
+	}
+	for _, b := range fn.Blocks {
+		for _, in := range b.Instrs {
+			d, ok := in.(*ssa.Defer)
+			if !ok {
+				continue
+			}
+			callees := p.pfCallees(&d.Call)
+			if len(callees) == 0 {
+				if mc, isMC := d.Call.Value.(*ssa.MakeClosure); isMC {
+					if f, isF := mc.Fn.(*ssa.Function); isF {
+						callees = append(callees, f)
+					}
+				}
+			}
+			if len(callees) == 0 {
+				n := calleeName(&d.Call)
+				if strings.Contains(n, "Recover") || strings.Contains(n, "HandleCrash") || (staticCallee(&d.Call) == nil && !d.Call.IsInvoke()) {
+					return true
+				}
+				continue
+			}
+			for _, f := range callees {
+				for _, c := range callsIn(f) {
+					if isRecover(c) {
+						return true
+					}
+				}
+			}
+		}
+	}
+	return false
+}
+
+// pfPassedIn: the facts fs, which hold at a point of fn that every call accepted by `precedes`
+// precedes, establish that a preflight succeeded — directly (pfSuccess of a checker call of fn) or
+// through a callee (pfPassedViaCallee). isPreflight selects the checker calls; only != nil asks for
+// that very call.
+func (p *Program) pfPassedIn(fn *ssa.Function, fs []Fact, as pfAssume, precedes func(*ssa.Call) bool, isPreflight func(*ssa.CallCommon) bool, only *ssa.Call, depth int) (bool, string) {
+	for _, c := range callsIn(fn) {
+		call, ok := c.Instr.(*ssa.Call)
+		if !ok {
+			continue
+		}
+		if isPreflight(c.Common) {
+			if only != nil && call != only {
+				continue
+			}
+			if p.pfSuccessAssuming(fs, call, as) && precedes(call) {
+				return true, fmt.Sprintf("%s==(∅,nil) in %s", calleeName(c.Common), shortFuncID(fn))
+			}
+			continue
+		}
+		if depth >= 2 {
+			continue
+		}
+		if h := staticCallee(c.Common); h == nil || len(h.Blocks) == 0 || h == fn || isNonProductPkg(funcPkgPath(h)) {
+			continue
+		}
+		if ok, why := p.pfPassedViaCallee(fs, call, isPreflight, only, depth); ok && precedes(call) {
+			return true, why
+		}
+	}
+	return false, ""
+}
+
+// pfPassedViaCallee: the facts fs say something about the results of the static call k (error nil,
+// list empty, boolean true/false), and every return of the callee that can produce that outcome is
+// behind a successful preflight.
+func (p *Program) pfPassedViaCallee(fs []Fact, k *ssa.Call, isPreflight func(*ssa.CallCommon) bool, only *ssa.Call, depth int) (bool, string) {
+	h := staticCallee(k.Common())
+	if h == nil || len(h.Blocks) == 0 {
+		return false, ""
+	}
+	outs := p.pfKnownOutcome(fs, k)
+	if len(outs) == 0 {
+		return false, ""
+	}
+	if !p.pfFuncContains(h, func(c Call) bool { return isPreflight(c.Common) }) {
+		return false, ""
+	}
+	if h.Recover != nil && p.pfMayRecover(h) {
+		return false, ""
+	}
+	n := 0
+	via := ""
+	for _, rc := range p.returnCases(h) {
+		if h.Recover != nil && rc.Ret.Block() == h.Recover {
+			continue
+		}
+		if pfContradictory(rc.Facts) {
+			continue
+		}
+		ok, add, as := p.pfReturnCompatible(rc, outs)
+		if !ok {
+			continue
+		}
+		n++
+		dom := rc.Ret.Block()
+		if rc.Pred != nil {
+			dom = rc.Pred
+		}
+		rfs := append(append([]Fact{}, rc.Facts...), add...)
+		passed, why := p.pfPassedIn(h, rfs, as, func(c *ssa.Call) bool { return c.Block() == dom || c.Block().Dominates(dom) }, isPreflight, only, depth+1)
+		if !passed {
+			return false, ""
+		}
+		via = why
+	}
+	if n == 0 {
+		return false, ""
+	}
+	return true, fmt.Sprintf("%s reports this outcome only after %s", shortFuncID(h), via)
 }
 
 // ---------------------------------------------------------------------------------------------
@@ -423,8 +743,26 @@ func (p *Program) pfComposition(v ssa.Value, depth int) *pfComp {
 		return &pfComp{Unknown: "nesting too deep"}
 	}
 	v = stripConv(v)
+	list := func() *pfComp {
+		elems, why := p.pfListElems(v)
+		if why != "" {
+			return &pfComp{Unknown: "slice that is not a literal: " + p.describe(v) + " (" + why + ")"}
+		}
+		name := "slice"
+		if nt := namedTypeString(v.Type()); nt != "" {
+			name = nt[strings.LastIndex(nt, ".")+1:]
+		}
+		n := &pfComp{Name: name}
+		for _, e := range elems {
+			n.Kids = append(n.Kids, p.pfComposition(e, depth+1))
+		}
+		return n
+	}
 	switch x := v.(type) {
 	case *ssa.Call:
+		if pfIsAppend(x) {
+			return list()
+		}
 		f := staticCallee(x.Common())
 		if f == nil {
 			return &pfComp{Unknown: "result of a dynamic call " + p.describe(x)}
@@ -440,20 +778,8 @@ func (p *Program) pfComposition(v ssa.Value, depth int) *pfComp {
 			}
 		}
 		return n
-	case *ssa.Slice, *ssa.Const:
-		elems, ok := sliceElems(v)
-		if !ok {
-			return &pfComp{Unknown: "slice that is not a literal: " + p.describe(v)}
-		}
-		name := "slice"
-		if nt := namedTypeString(v.Type()); nt != "" {
-			name = nt[strings.LastIndex(nt, ".")+1:]
-		}
-		n := &pfComp{Name: name}
-		for _, e := range elems {
-			n.Kids = append(n.Kids, p.pfComposition(e, depth+1))
-		}
-		return n
+	case *ssa.Slice, *ssa.Const, *ssa.MakeSlice:
+		return list()
 	case *ssa.Alloc:
 		if _, typ, ok := compositeFields(x); ok {
 			nt := namedTypeString(typ)
@@ -463,6 +789,148 @@ func (p *Program) pfComposition(v ssa.Value, depth int) *pfComp {
 		}
 	}
 	return &pfComp{Unknown: p.describe(v) + " (" + fmt.Sprintf("%T", v) + ")"}
+}
+
+// pfIsAppend: v is a call of the builtin append.
+func pfIsAppend(v ssa.Value) bool {
+	c, ok := v.(*ssa.Call)
+	if !ok {
+		return false
+	}
+	b, isB := c.Call.Value.(*ssa.Builtin)
+	return isB && b.Name() == "append" && len(c.Call.Args) == 2
+}
+
+// pfListElems reads the elements of a slice value whose contents are fixed by the way it is built,
+// in order: a composite literal / variadic tail (`slice (new [N]T)[:]`, see sliceElems), the nil
+// slice, a fresh empty slice of any capacity (`make(T, 0)`, `make(T, 0, n)`, `T{}`), or a chain of
+// appends `append(<list>, e1, e2)`, `append(<list>, <list>...)` on such a value. why != "" when the
+// shape is not one of these.
+//
+// A value that may have spare capacity (a fresh slice made with a capacity, the result of an append)
+// shares its backing array with everything appended to it: a second append on the same intermediate
+// value would overwrite what the first one wrote. Such a value is accepted as the base of an append
+// only when that append is its sole use (the chain is linear). Literals and nil have no spare
+// capacity, appending to them copies. An append whose base arrives through a Phi (append in a loop,
+// append under a condition) has no fixed contents and is not read.
+func (p *Program) pfListElems(v ssa.Value) (elems []ssa.Value, why string) {
+	elems, _, why = p.pfListElemsDepth(v, 0)
+	return elems, why
+}
+
+func (p *Program) pfListElemsDepth(v ssa.Value, depth int) (elems []ssa.Value, spare bool, why string) {
+	if depth > 32 {
+		return nil, false, "append chain too long"
+	}
+	v = stripConv(v)
+	switch x := v.(type) {
+	case *ssa.Const:
+		if x.Value == nil {
+			return nil, false, ""
+		}
+		return nil, false, "constant that is not nil"
+	case *ssa.MakeSlice:
+		// make(T, 0, n) with a computed n
+		if n, isC := constInt(x.Len); isC && n == 0 {
+			c, isC := constInt(x.Cap)
+			return nil, !isC || c != 0, ""
+		}
+		return nil, false, "make with a length that is not the constant 0: the elements are filled in elsewhere"
+	case *ssa.Slice:
+		a, isA := x.X.(*ssa.Alloc)
+		if !isA {
+			return nil, false, "re-slicing of " + p.describe(x.X)
+		}
+		arr := pfArrayLen(a)
+		if arr < 0 {
+			return nil, false, "slice of something that is not a local array"
+		}
+		if x.Low != nil {
+			if lo, isC := constInt(x.Low); !isC || lo != 0 {
+				return nil, false, "slice expression with a lower bound"
+			}
+		}
+		if x.High != nil {
+			hi, isC := constInt(x.High)
+			if !isC {
+				return nil, false, "slice expression with a computed upper bound"
+			}
+			if hi == 0 {
+				// make(T, 0, n) with constant n: `slice (new [n]T)[:0]` — fresh and empty, provided nothing
+				// else holds the array
+				for _, r := range referrersOf(a) {
+					if r != ssa.Instruction(x) {
+						if _, dbg := r.(*ssa.DebugRef); !dbg {
+							return nil, false, "the backing array of the fresh slice is used elsewhere"
+						}
+					}
+				}
+				return nil, arr > 0, ""
+			}
+			if hi != arr {
+				return nil, false, "slice expression that does not cover the whole array"
+			}
+		}
+		if arr == 0 {
+			return nil, false, ""
+		}
+		if a.Comment == "makeslice" {
+			return nil, false, "make with a length that is not the constant 0: the elements are filled in elsewhere"
+		}
+		elems, ok := sliceElems(x)
+		if !ok {
+			return nil, false, "array filled at a computed index"
+		}
+		if int64(len(elems)) != arr {
+			return nil, false, fmt.Sprintf("array of %d elements with %d constant-index stores", arr, len(elems))
+		}
+		return elems, false, ""
+	case *ssa.Call:
+		if !pfIsAppend(x) {
+			return nil, false, "result of a call"
+		}
+		base, tail := stripConv(x.Call.Args[0]), stripConv(x.Call.Args[1])
+		if _, isPhi := base.(*ssa.Phi); isPhi {
+			return nil, false, "append to a list that depends on the path taken (loop or condition)"
+		}
+		head, baseSpare, why := p.pfListElemsDepth(base, depth+1)
+		if why != "" {
+			return nil, false, why
+		}
+		if baseSpare {
+			for _, r := range referrersOf(base) {
+				if r == ssa.Instruction(x) {
+					continue
+				}
+				if _, dbg := r.(*ssa.DebugRef); dbg {
+					continue
+				}
+				return nil, false, "the list " + p.describe(base) + " is appended to, but also used at " + p.IPos(r) + " (shared backing array)"
+			}
+		}
+		if _, isPhi := tail.(*ssa.Phi); isPhi {
+			return nil, false, "appended elements depend on the path taken"
+		}
+		more, _, why := p.pfListElemsDepth(tail, depth+1)
+		if why != "" {
+			return nil, false, "appended elements: " + why
+		}
+		return append(append([]ssa.Value{}, head...), more...), true, ""
+	}
+	return nil, false, fmt.Sprintf("%T", v)
+}
+
+// pfArrayLen: length of the array a local `new [N]T` allocates, -1 if a is something else.
+func pfArrayLen(a *ssa.Alloc) int64 {
+	pt, ok := a.Type().Underlying().(*types.Pointer)
+	if !ok {
+		return -1
+	}
+	arr, ok := pt.Elem().Underlying().(*types.Array)
+	if !ok {
+		return -1
+	}
+	return arr.Len()
 }
 
 // pfSink: a function that stores a parameter of checker-interface type into a struct field.
